@@ -31,6 +31,71 @@ def gen_cases(tier, seed):
     return cases
 
 
+SAML_NS = "urn:oasis:names:tc:SAML:2.0:assertion"
+SAMLP_NS = "urn:oasis:names:tc:SAML:2.0:protocol"
+MD_NS = "urn:oasis:names:tc:SAML:2.0:metadata"
+DS_NS = "http://www.w3.org/2000/09/xmldsig#"
+XENC_NS = "http://www.w3.org/2001/04/xmlenc#"
+_ID = ["BaseID", "NameID", "EncryptedID"]
+_REQ = ["Issuer", "Signature", "Extensions"]
+_ROLE = ["Signature", "Extensions", "KeyDescriptor", "Organization", "ContactPerson"]
+_SSO = _ROLE + ["ArtifactResolutionService", "SingleLogoutService", "ManageNameIDService", "NameIDFormat"]
+# Sequence order of the schemas themselves (saml-schema-assertion-2.0, saml-schema-protocol-2.0, saml-schema-metadata-2.0,
+# xmldsig-core-schema, xenc-schema), written down independently of the class tables: child local names in xs:sequence order.
+SPEC_ORDER = {
+    (SAML_NS, "Assertion"): ["Issuer", "Signature", "Subject", "Conditions", "Advice"],
+    (SAML_NS, "Subject"): _ID + ["SubjectConfirmation"],
+    (SAML_NS, "SubjectConfirmation"): _ID + ["SubjectConfirmationData"],
+    (SAML_NS, "AuthnStatement"): ["SubjectLocality", "AuthnContext"],
+    (SAML_NS, "AuthnContext"): ["AuthnContextClassRef", "AuthnContextDecl", "AuthenticatingAuthority"],
+    (SAML_NS, "AuthzDecisionStatement"): ["Action", "Evidence"],
+    (SAML_NS, "EncryptedAssertion"): ["EncryptedData", "EncryptedKey"],
+    (SAMLP_NS, "AuthnRequest"): _REQ + ["Subject", "NameIDPolicy", "Conditions", "RequestedAuthnContext", "Scoping"],
+    (SAMLP_NS, "Response"): _REQ + ["Status"],
+    (SAMLP_NS, "LogoutResponse"): _REQ + ["Status"],
+    (SAMLP_NS, "Status"): ["StatusCode", "StatusMessage", "StatusDetail"],
+    (SAMLP_NS, "LogoutRequest"): _REQ + _ID[:1] + ["SessionIndex"],
+    (SAMLP_NS, "AttributeQuery"): _REQ + ["Subject", "Attribute"],
+    (SAMLP_NS, "AuthnQuery"): _REQ + ["Subject", "RequestedAuthnContext"],
+    (SAMLP_NS, "ArtifactResolve"): _REQ + ["Artifact"],
+    (SAMLP_NS, "ManageNameIDRequest"): _REQ + ["NameID", "NewID"],
+    (SAMLP_NS, "NameIDMappingRequest"): _REQ + ["NameID", "NameIDPolicy"],
+    (SAMLP_NS, "Scoping"): ["IDPList", "RequesterID"],
+    (SAMLP_NS, "IDPList"): ["IDPEntry", "GetComplete"],
+    (MD_NS, "EntitiesDescriptor"): ["Signature", "Extensions"],
+    (MD_NS, "EntityDescriptor"): ["Signature", "Extensions", "IDPSSODescriptor", "Organization", "ContactPerson", "AdditionalMetadataLocation"],
+    (MD_NS, "IDPSSODescriptor"): _SSO + ["SingleSignOnService", "NameIDMappingService", "AssertionIDRequestService", "AttributeProfile", "Attribute"],
+    (MD_NS, "SPSSODescriptor"): _SSO + ["AssertionConsumerService", "AttributeConsumingService"],
+    (MD_NS, "AttributeAuthorityDescriptor"): _ROLE + ["AttributeService", "AssertionIDRequestService", "NameIDFormat", "AttributeProfile", "Attribute"],
+    (MD_NS, "KeyDescriptor"): ["KeyInfo", "EncryptionMethod"],
+    (MD_NS, "Organization"): ["Extensions", "OrganizationName", "OrganizationDisplayName", "OrganizationURL"],
+    (MD_NS, "ContactPerson"): ["Extensions", "Company", "GivenName", "SurName", "EmailAddress", "TelephoneNumber"],
+    (MD_NS, "AttributeConsumingService"): ["ServiceName", "ServiceDescription", "RequestedAttribute"],
+    (DS_NS, "Signature"): ["SignedInfo", "SignatureValue", "KeyInfo", "Object"],
+    (DS_NS, "SignedInfo"): ["CanonicalizationMethod", "SignatureMethod", "Reference"],
+    (DS_NS, "Reference"): ["Transforms", "DigestMethod", "DigestValue"],
+    (DS_NS, "X509IssuerSerial"): ["X509IssuerName", "X509SerialNumber"],
+    (DS_NS, "RSAKeyValue"): ["Modulus", "Exponent"],
+    (XENC_NS, "EncryptedData"): ["EncryptionMethod", "KeyInfo", "CipherData", "EncryptionProperties"],
+    (XENC_NS, "EncryptedKey"): ["EncryptionMethod", "KeyInfo", "CipherData", "EncryptionProperties", "ReferenceList", "CarriedKeyName"],
+}
+
+
+def _spec_order_problems(root, problems, counter):
+    for e in root.iter():
+        if not e.tag.startswith("{"):
+            continue
+        ns, local = e.tag[1:].split("}")
+        order = SPEC_ORDER.get((ns, local))
+        if not order:
+            continue
+        seq = [c.tag.split("}")[-1] for c in e if c.tag.split("}")[-1] in order]
+        idx = [order.index(x) for x in seq]
+        counter[0] += 1
+        if idx != sorted(idx):
+            problems.append("%s: children emitted as %r, schema sequence is %r" % (local, seq, order))
+
+
 def _expected_child_tags(obj):
     from saml2_tophat import ExtensionElement
     tags = []
@@ -160,6 +225,12 @@ def run_case(case, ctx):
         hit("order_walks")
         if problems:
             viol.append({"key": "C12/children-not-in-table-order", "what": "%s shape %d: %s" % (case["id"], shape, problems[0][:400])})
+        sproblems, cnt = [], [0]
+        _spec_order_problems(root, sproblems, cnt)
+        if cnt[0]:
+            hit("schema_sequence_checks", cnt[0])
+        if sproblems:
+            viol.append({"key": "C12/children-not-in-schema-sequence-order", "what": "%s shape %d: %s" % (case["id"], shape, sproblems[0][:400])})
         want_foreign = _count_foreign(x)
         got_foreign = len([e for e in root.iter() if e.tag.startswith("{urn:verif:foreign}")])
         got_fattr = sum(1 for e in root.iter() for a in e.attrib if a.startswith("{urn:verif:foreign}"))
